@@ -35,6 +35,7 @@ package parser
 import (
 	"bytes"
 	"encoding/base64"
+	"errors"
 	"fmt"
 	"io"
 	"os"
@@ -210,15 +211,30 @@ func ParseFile(fileSet *file.FileSet, filename string, src interface{}, mode Mod
 //
 // The parameter list, if any, should be a comma-separated list of identifiers.
 func ParseFunction(parameterList, body string) (*ast.FunctionLiteral, error) {
-	src := "(function(" + parameterList + ") {\n" + body + "\n})"
+	// 15.3.2.1: the parameters and the body have to parse on their own; neither may close the wrapper.
+	for _, part := range []string{"(function(" + parameterList + "\n) {\n})", "(function() {\n" + body + "\n})"} {
+		if _, err := parseWholeFunction(part); err != nil {
+			return nil, err
+		}
+	}
+	return parseWholeFunction("(function(" + parameterList + ") {\n" + body + "\n})")
+}
 
+// parseWholeFunction parses src, which must be one parenthesised function expression and nothing else.
+func parseWholeFunction(src string) (*ast.FunctionLiteral, error) {
 	p := newParser("", src, 1, nil)
 	program, err := p.parse()
 	if err != nil {
 		return nil, err
 	}
-
-	return program.Body[0].(*ast.ExpressionStatement).Expression.(*ast.FunctionLiteral), nil
+	if len(program.Body) == 1 {
+		if stmt, ok := program.Body[0].(*ast.ExpressionStatement); ok {
+			if fn, ok := stmt.Expression.(*ast.FunctionLiteral); ok && int(fn.Idx1()) == len(src) {
+				return fn, nil
+			}
+		}
+	}
+	return nil, errors.New("Unexpected token in Function constructor arguments")
 }
 
 // Scan reads a single token from the source at the current offset, increments the offset and
